@@ -96,6 +96,7 @@ class CodePairs(Job):
                 try:
                     keys[c.name] = (c.w.derive_key("purpose-1", 32), c.w.derive_key("purpose-2", 32), c.w.derive_key("purpose-1", 16))
                 except Exception as e:
+                    core.check_leak(e)
                     keys[c.name] = type(e).__name__
             a.api("close")
             b.api("close")
